@@ -99,7 +99,7 @@ pub fn specs() -> Vec<PropSpec> {
         },
         PropSpec {
             id: "C04",
-            parts: &[("c04", 480, 6000)],
+            parts: &[("c04", 800, 8000)],
             level: "exploration",
             tags: &["C04"],
             rule: "Each evaluation is one seeded history in which a third \
@@ -122,7 +122,7 @@ pub fn specs() -> Vec<PropSpec> {
         },
         PropSpec {
             id: "C14",
-            parts: &[("c14", 480, 6000)],
+            parts: &[("c14", 640, 6000)],
             level: "exploration",
             tags: &["C14"],
             rule: "Each evaluation is one seeded history on a swarm-drawn \
@@ -143,7 +143,7 @@ pub fn specs() -> Vec<PropSpec> {
         },
         PropSpec {
             id: "C06",
-            parts: &[("c06", 480, 6000), ("c07fail", 320, 4000)],
+            parts: &[("c06", 480, 6000), ("c07fail", 480, 6000)],
             level: "exploration",
             tags: &["C06"],
             rule: "Each evaluation is one seeded history (C01 workload with \
@@ -202,7 +202,7 @@ pub fn specs() -> Vec<PropSpec> {
         },
         PropSpec {
             id: "C09",
-            parts: &[("c09cuts", 32, 480), ("c09queue", 1600, 60000), ("c18", 160, 3000), ("c10fail", 320, 8000)],
+            parts: &[("c09cuts", 48, 480), ("c09queue", 1600, 60000), ("c18", 160, 3000), ("c10fail", 480, 8000)],
             level: "fault_enumeration",
             tags: &["C09", "LIVENESS"],
             rule: "Two kinds of evaluation. (1) c09cuts: one (operation, \
@@ -251,7 +251,7 @@ pub fn specs() -> Vec<PropSpec> {
         },
         PropSpec {
             id: "C10",
-            parts: &[("c10", 480, 20000), ("c10fail", 320, 8000)],
+            parts: &[("c10", 960, 20000), ("c10fail", 640, 8000)],
             level: "exploration",
             tags: &["C10"],
             rule: "Each evaluation is one seeded sequence of 25-75 \
@@ -289,7 +289,7 @@ pub fn specs() -> Vec<PropSpec> {
         },
         PropSpec {
             id: "C12",
-            parts: &[("c12", 96, 6000)],
+            parts: &[("c12", 160, 6000)],
             level: "fault_enumeration",
             tags: &["C12"],
             rule: "Each evaluation is one run in which the harness plays \
@@ -325,7 +325,7 @@ pub fn specs() -> Vec<PropSpec> {
         },
         PropSpec {
             id: "C15",
-            parts: &[("c15", 64, 4000)],
+            parts: &[("c15", 192, 4000)],
             level: "fault_enumeration",
             tags: &["C15"],
             rule: "Each evaluation is one run of 2-4 signing rounds on an \
@@ -402,7 +402,7 @@ pub fn specs() -> Vec<PropSpec> {
         },
         PropSpec {
             id: "C16",
-            parts: &[("c12", 96, 6000)],
+            parts: &[("c12", 160, 6000)],
             level: "exploration",
             tags: &["C16"],
             rule: "Same runs as C12; every call into the endpoints runs \
@@ -428,7 +428,7 @@ pub fn specs() -> Vec<PropSpec> {
         },
         PropSpec {
             id: "C11",
-            parts: &[("c11", 320, 6000), ("c11cuts", 16, 320)],
+            parts: &[("c11", 320, 6000), ("c11cuts", 24, 320)],
             level: "exploration",
             tags: &["C11"],
             rule: "Two kinds of evaluation. (1) c11: one seeded history of \
@@ -472,7 +472,7 @@ pub fn specs() -> Vec<PropSpec> {
         },
         PropSpec {
             id: "C07",
-            parts: &[("c07", 320, 8000), ("c18", 96, 2000), ("c07fail", 320, 4000)],
+            parts: &[("c07", 400, 8000), ("c18", 96, 2000), ("c07fail", 480, 6000)],
             level: "exploration",
             tags: &["C07"],
             rule: "Each evaluation is one seeded concurrent scenario on the \
@@ -536,7 +536,7 @@ pub fn specs() -> Vec<PropSpec> {
         },
         PropSpec {
             id: "C05",
-            parts: &[("c05", 480, 6000)],
+            parts: &[("c05", 800, 8000)],
             level: "exploration",
             tags: &["C05"],
             rule: "Each evaluation is one seeded history in which about a \
